@@ -141,6 +141,9 @@ class Frame:
         return False
 
     def assign(self, name, value):
+        if name in getattr(self, 'globals_declared', ()):
+            self.world_state[(self.module.name, name)] = value
+            return
         if name in self.nonlocals:
             f = self.parent
             while f is not None:
@@ -216,6 +219,8 @@ class Interp:
         return node.value
 
     def e_Name(self, node, fr):
+        if node.id in getattr(fr, 'globals_declared', ()):
+            return self.world.global_name(fr.module, node.id, self)
         try:
             return fr.lookup(node.id)
         except KeyError:
@@ -451,6 +456,8 @@ class Interp:
             return z3.Contains(TStr.unwrap(container), TStr.unwrap(item))
         if isinstance(container, SMap):
             return container.has(item)
+        if type(container).__name__ == 'SMapCell':
+            return container.m.has(item)
         if isinstance(container, (tuple, list, set, frozenset)):
             terms = []
             for x in container:
@@ -601,6 +608,8 @@ class Interp:
             if idx not in obj:
                 self.raise_('KeyError', idx, node=node)
             return obj[idx]
+        if type(obj).__name__ == 'SMapCell':
+            obj = obj.m
         if isinstance(obj, SMap):
             if not self.spec and not self.branch(obj.has(idx)):
                 self.raise_('KeyError', idx, node=node)
@@ -714,6 +723,17 @@ class Interp:
             return self.call_func(fn, args, kwargs, node)
         if isinstance(fn, ClassRef):
             return self.world.construct(fn, args, kwargs, self, node)
+        if isinstance(fn, SVal):
+            # call of an opaque callable object: uninterpreted, logged
+            from . import models
+            sym = 'call'
+            extra = ()
+            if kwargs:
+                sym += '$' + '$'.join(sorted(kwargs))
+                extra = tuple(kwargs[k] for k in sorted(kwargs))
+            r = models.apply_uf(sym, (fn,) + tuple(args) + extra, 'Val')
+            self.calls.append((sym, (fn,) + tuple(args) + extra, r))
+            return r
         if callable(fn) and not S.is_sym(fn):
             # concrete python callable given by the contract environment
             return fn(*args, **kwargs)
@@ -766,6 +786,7 @@ class Interp:
         if self.depth > 12:
             raise Unsupported('inlining depth')
         fr = Frame(parent=fn.closure, module=fn.module)
+        fr.world_state = self.world.module_state
         kwargs = dict(kwargs)
         self.bind_params(fn, args, kwargs, fr)
         if isinstance(fn.node, ast.Lambda):
@@ -862,7 +883,8 @@ class Interp:
         pass
 
     def s_Global(self, node, fr):
-        raise Unsupported('global statement')
+        fr.globals_declared = getattr(fr, 'globals_declared', set()) | set(
+            node.names)
 
     def s_Nonlocal(self, node, fr):
         fr.nonlocals.update(node.names)
